@@ -83,9 +83,9 @@ def render_token(tok, cfg):
     if t == "quadsym":
         return (".quad %s" if fam in ("x64", "arm64") else ".long %s") % _ref(tok["to"], tok.get("addend", 0))
     if t == "string":
-        return '.string "%s"' % tok["s"]
+        return '.string "%s"' % tok["s"].replace("\x00", "\\0")
     if t == "ascii":
-        return '.ascii "%s"' % tok["s"]
+        return '.ascii "%s"' % tok["s"].replace("\x00", "\\0")
     if t == "zero":
         return ".zero %d" % tok["n"]
     if t == "align":
@@ -134,7 +134,8 @@ def render_token(tok, cfg):
                 return ("mov dword ptr [rip + %s], %d" % (_ref(tok["to"], a), tok["imm"])) if intel else ("movl $%d, %s(%%rip)" % (tok["imm"], _ref(tok["to"], a)))
             if fam == "x64":
                 if tok.get("got"):
-                    return ("mov rax, qword ptr [rip + %s@GOTPCREL]" % tok["to"]) if intel else ("movq %s@GOTPCREL(%%rip), %%rax" % tok["to"])
+                    var = tok.get("variant") or "GOTPCREL"
+                    return ("mov rax, qword ptr [rip + %s@%s]" % (tok["to"], var)) if intel else ("movq %s@%s(%%rip), %%rax" % (tok["to"], var))
                 return ("lea rax, [rip + %s]" % _ref(tok["to"], a)) if intel else ("leaq %s(%%rip), %%rax" % _ref(tok["to"], a))
             return "movl $%s, %%eax" % _ref(tok["to"], a)
     if fam == "arm64":
@@ -742,7 +743,11 @@ def check_operands(real, operands, cfg):
         attrs = {a.name for a in e.attributes}
         tok = o["tok"]
         want = set()
-        if tok.get("got"):
+        if tok.get("variant"):
+            # what the ELF variants stand for (gtirb's attribute of the same name; the GOT-indirect ones add GOT)
+            want = {"GOTTPOFF": {"GOT", "TPOFF"}, "GOTNTPOFF": {"GOT", "NTPOFF"}, "TPOFF": {"TPOFF"}, "NTPOFF": {"NTPOFF"},
+                    "DTPOFF": {"DTPOFF"}, "TLSGD": {"TLSGD"}}[tok["variant"]]
+        elif tok.get("got"):
             want = {"GOT", "PCREL"} if fam == "x64" else {"GOT", "LO12"}
         elif tok.get("lo12"):
             want = {"LO12"} if fam == "arm64" else {"LO"}
